@@ -42,6 +42,19 @@ Theorem C13_min_exact : forall (F : Type) (O : Ops F) (P : F -> Prop) (p mi ci :
     least_in O (lastn (N.to_nat p) (firstn (S k) xs)) (nth k (min_outs O (mkMin p mi ci (repeat (inf O) (N.to_nat p))) xs) (inf O)).
 Proof. intros F O P p mi ci xs OR H1 H2 H3 H4 HP. exact (proj2 (min_least O P OR p mi ci xs H1 H2 H3 H4 HP)). Qed.
 
+(* binary64 SimpleMovingAverage does not drift: the forward-error theorem of C01 holds for streams of up to 2^49 inputs *)
+From Coq Require Import List Floats.
+From Flocq Require Import Core.
+From TA Require Import FloatInst Proofs.Wiring Proofs.FloatErr Proofs.FloatSma.
+Theorem C13_sma_binary64_no_drift : forall p s xs M, sma_new FOps p = Ok s -> (p < 9007199254740992)%N ->
+  (bpow radix2 (-960) <= M)%R -> Forall (okin M) xs -> (3 * ((INR (N.to_nat p) + 2) * M + 1) <= BIG)%R ->
+  (INR (length xs) * u <= / 16)%R ->
+  Forall2 (fun o hh => finF o /\
+             (Rabs (FR o - mean (map FR (lastn (N.to_nat p) hh))) <=
+              (1 / 10 ^ 12 + 1 / 10 ^ 15 * (INR (length hh) * R_sqrt.sqrt (INR (length hh)))) * M)%R)
+          (sma_outs' FOps s xs) (prefixes_from [] xs).
+Proof. exact sma_float_within_tau. Qed.
+
 From Coq Require Import List Floats.
 From TA Require Import Generic FloatInst XQ Run2 Par.Hom Par.Var Par.Oracle.
 (* the T2 oracle (exact rational run, evaluated by the checks) is the image of the exact real run these
